@@ -7,6 +7,7 @@ import (
 	"math/rand"
 	"strings"
 	"sync"
+	"sync/atomic"
 	"time"
 
 	"github.com/ThreeDotsLabs/watermill/message"
@@ -34,10 +35,12 @@ func (b c02Beh) String() string {
 }
 
 type c02Case struct {
-	HasPub bool
-	Prefix string // none | pass | append
-	Msgs   []c02Beh
-	Gate   string // "" or hook point at which message 1 is parked until the others are done
+	HasPub  bool
+	Prefix  string // none | pass | append
+	Msgs    []c02Beh
+	Gate    string // "" or hook point at which message 1 is parked until the others are done
+	Overlap bool   // the Publish call for message 1 is held inside the publisher until the handlers of the other messages have returned
+	LateMsg bool   // the handler is stopped (Handler.Stop) while the source keeps its channel open; a message sent then is handled like any other or given up unsettled, never settled without the chain
 }
 
 var errScripted = errors.New("scripted failure")
@@ -103,6 +106,23 @@ func runC02(c *Ctx) error {
 			}
 		}
 	}
+	// (1c) several invocations of one handler publish at the same time, one of the Publish calls panics / fails: each settles by its own Publish
+	for _, bad := range []string{"panic", "error"} {
+		ok1 := c02Beh{Self: "none", End: "ok", NOuts: 1, Pub: "accept"}
+		cases = append(cases, c02Case{HasPub: true, Prefix: "none", Overlap: true, Msgs: []c02Beh{{Self: "none", End: "ok", NOuts: 1, Pub: bad}, ok1, ok1}})
+		cases = append(cases, c02Case{HasPub: true, Prefix: "pass", Overlap: true, Msgs: []c02Beh{{Self: "none", End: "ok", NOuts: 2, Pub: bad}, ok1, {Self: "none", End: "ok", NOuts: 2, Pub: "accept"}}}) // (the trace spec knows m1..m3)
+	}
+	// (1d) a message that the source still hands over after the handler was stopped is handled like any other, or
+	// (the cancelled subscription gave it up) not handled and not settled at all
+	for _, hp := range []bool{true, false} {
+		b := c02Beh{Self: "none", End: "ok", Pub: "accept"}
+		if hp {
+			b.NOuts = 1
+		}
+		for k := 0; k < 6; k++ { // which way the pump's choice goes is not ours to decide
+			cases = append(cases, c02Case{HasPub: hp, Prefix: "none", LateMsg: true, Msgs: []c02Beh{b, b}})
+		}
+	}
 	nsingle := len(cases)
 	// (2) three messages in flight concurrently on one handler, one of them parked at a hook point
 	gates := []string{"", "router.handle.start", "router.handle.before_publish", "router.handle.before_settle"}
@@ -150,6 +170,10 @@ func c02Run(r *tr.Run, cs c02Case, rng *rand.Rand) (gateReached bool) {
 		panic(err)
 	}
 	sub := scripted.NewSub("sub")
+	sub.IgnoreCtx = cs.LateMsg
+	othersReturned := make(chan struct{})
+	var nOthers int32
+	var handle *message.Handler
 	pub := scripted.NewPub("pub")
 	prefix := fmt.Sprintf("r%d-", r.ID)
 	mid := func(uuid string) string { return strings.TrimPrefix(uuid, prefix) } // "m1"
@@ -157,6 +181,7 @@ func c02Run(r *tr.Run, cs c02Case, rng *rand.Rand) (gateReached bool) {
 	consumed := map[string]*message.Message{}
 	var outMu sync.Mutex
 	var lateWg sync.WaitGroup
+	started := map[string]bool{}
 	returned := map[string][]*message.Message{} // outputs as returned by the chain, by consumed id
 	snap := map[*message.Message]string{}
 
@@ -249,6 +274,9 @@ func c02Run(r *tr.Run, cs c02Case, rng *rand.Rand) (gateReached bool) {
 	recorder := func(h message.HandlerFunc) message.HandlerFunc {
 		return func(msg *message.Message) (outs []*message.Message, err error) {
 			m := mid(msg.UUID)
+			outMu.Lock()
+			started[m] = true
+			outMu.Unlock()
 			r.Emit("hstart", "m", m)
 			defer func() {
 				if rec := recover(); rec != nil {
@@ -270,6 +298,9 @@ func c02Run(r *tr.Run, cs c02Case, rng *rand.Rand) (gateReached bool) {
 					end = "err"
 				}
 				r.Emit("hend", "m", m, "end", end, "outs", ids)
+				if m != "m1" && int(atomic.AddInt32(&nOthers, 1)) == len(cs.Msgs)-1 {
+					close(othersReturned)
+				}
 			}()
 			return h(msg)
 		}
@@ -316,6 +347,11 @@ func c02Run(r *tr.Run, cs c02Case, rng *rand.Rand) (gateReached bool) {
 		}
 		outMu.Unlock()
 		r.Emit("pcall", "m", m, "outs", ids, "sample", scripted.SettleState(consumed[m]), "intact", intact)
+		if cs.Overlap && m == "m1" {
+			// held until the other invocations have come back from their handlers (and, on the unchanged tree, published)
+			<-waitOr(othersReturned, 400*time.Millisecond)
+			time.Sleep(20 * time.Millisecond)
+		}
 		b := beh[m]
 		outcome := b.Pub
 		if strings.HasPrefix(outcome, "error") {
@@ -336,9 +372,9 @@ func c02Run(r *tr.Run, cs c02Case, rng *rand.Rand) (gateReached bool) {
 	}
 	hname := prefix + "h"
 	if cs.HasPub {
-		router.AddHandler(hname, "in", sub, "out", pub, handler)
+		handle = router.AddHandler(hname, "in", sub, "out", pub, handler)
 	} else {
-		router.AddNoPublisherHandler(hname, "in", sub, func(msg *message.Message) error {
+		handle = router.AddNoPublisherHandler(hname, "in", sub, func(msg *message.Message) error {
 			_, err := handler(msg)
 			return err
 		})
@@ -384,7 +420,16 @@ func c02Run(r *tr.Run, cs c02Case, rng *rand.Rand) (gateReached bool) {
 			close(ch)
 		}(m, settled[i])
 	}
-	for _, m := range ids {
+	for i, m := range ids {
+		if cs.LateMsg && i == 1 {
+			// the first message is through; now the handler is stopped, but the source goes on handing over
+			select {
+			case <-settled[0]:
+			case <-time.After(HangBound):
+			}
+			handle.Stop()
+			time.Sleep(5 * time.Millisecond)
+		}
 		r.Emit("emit", "m", m)
 		if !sub.Emit("in", consumed[m]) {
 			r.Emit("hung", "what", "subscription closed before emit")
@@ -402,7 +447,18 @@ func c02Run(r *tr.Run, cs c02Case, rng *rand.Rand) (gateReached bool) {
 		gateReached = gate.Arrived(20 * time.Millisecond)
 		gate.Release()
 	}
+	untaken := ""
 	for i := range ids {
+		if cs.LateMsg && i == 1 {
+			// the cancelled subscription may legitimately give the message up (the decorator's pump chooses between
+			// handing over and the cancelled context): then it is never handled and stays unsettled
+			select {
+			case <-settled[i]:
+			case <-time.After(300 * time.Millisecond):
+				untaken = ids[i]
+			}
+			continue
+		}
 		if !WaitOrHang(settled[i]) {
 			r.Emit("hung", "what", "message never settled", "m", ids[i])
 			return
@@ -415,6 +471,18 @@ func c02Run(r *tr.Run, cs c02Case, rng *rand.Rand) (gateReached bool) {
 		return
 	}
 	<-waitOr(waitWG(&lateWg), HangBound)
+	if untaken != "" {
+		// the router is closed: nothing can start any more
+		outMu.Lock()
+		st := started[untaken]
+		outMu.Unlock()
+		if !st {
+			r.Emit("untaken", "m", untaken)
+		} else if !WaitOrHang(settled[1]) {
+			r.Emit("hung", "what", "message never settled", "m", untaken)
+			return
+		}
+	}
 	final := [][]string{}
 	for _, m := range ids {
 		final = append(final, []string{m, scripted.SettleState(consumed[m])})
